@@ -332,8 +332,9 @@ def _repeat(child: Node, min_occurs: int, max_occurs: Optional[int]) -> Node:
     if min_occurs > 1:
         subroot = NoOpDecision(None, True)
         for _ in range(min_occurs - 1):
-            subroot.add_transition(child, True)
-        root.add_transition(subroot, False)
+            subroot.add_transition(child)
+        subroot.add_transition(NoOpLeaf(None, is_valid=False))
+        root.add_transition(subroot)
 
     if max_occurs != min_occurs:
         # Valid: max_occurs
